@@ -140,6 +140,26 @@ def run(tier, replay=None):
                     history.append({'key': "bin:" + k, 'cfg': "exe/" + name, 'obs': "%016x:%d" % (fnv64(b), len(b))})
                 history.append({'key': "exe:" + k, 'cfg': "exe/" + name,
                                 'obs': "%d:%s:%d:%s" % (p1.returncode, hashlib.sha256(b).hexdigest()[:16], p2.returncode, hashlib.sha256(p2.stdout).hexdigest()[:16])})
+        # what was processed earlier can also reach a tool through the file system: a small program written to the path that holds a big
+        # program's binary must come out as it does at a fresh path
+        byk = dict(items)
+        xs = [k for k, (kind, sid, src) in items if kind == 'x' and sid.startswith(('file:', 'fib', 'bare'))]
+        as_ = [k for k, (kind, sid, src) in items if kind == 'asm' and sid.startswith(('file:', 'imm1:'))]
+        for ks, tool, ext in ((xs, "xcmp", ".x"), (as_, "hexasm", ".S")):
+            sized = sorted(ks, key=lambda k: len(byk[k][2]))
+            if len(sized) < 2:
+                continue
+            big = sized[-1]
+            wd = os.path.join(d, "exe"); shutil.rmtree(wd, ignore_errors=True); os.makedirs(wd)
+            open(os.path.join(wd, "big" + ext), "w", encoding='latin-1', errors='replace').write(byk[big][2])
+            for small in sized[:6]:
+                open(os.path.join(wd, "small" + ext), "w", encoding='latin-1', errors='replace').write(byk[small][2])
+                vlib.sh([os.path.join(tdir, tool), "big" + ext, "-o", "same.bin"], cwd=wd, timeout=120)
+                p1 = vlib.sh([os.path.join(tdir, tool), "small" + ext, "-o", "same.bin"], cwd=wd, timeout=120)
+                nproc += 2
+                b = open(os.path.join(wd, "same.bin"), "rb").read() if os.path.exists(os.path.join(wd, "same.bin")) else b""
+                if p1.returncode == 0 and b:
+                    history.append({'key': "bin:" + small, 'cfg': "exe/over-a-bigger-binary", 'obs': "%016x:%d" % (fnv64(b), len(b))})
         # canary: a contradicting observation for an existing key
         history.append({'key': history[0]['key'], 'cfg': 'canary', 'obs': 'CANARY'})
         rf = os.path.join(d, "hist.ndjson"); vlib.write_ndjson(rf, history)
